@@ -1,10 +1,14 @@
 /-
 C16: SM → SSC conversion keeps everything: no property is invalid for SSC, so every property and every chart
 field of the source arrives in the output, after the template's own keys; negative BPMs / stops are refused.
+Sections 20–23: the timing data and the note data of the result, read through the library's accessor rules, equal
+the source's; the result of the default call reloads unchanged.
 -/
 import Simfile.Lemmas.Convert
+import Simfile.Lemmas.ConvertTiming
+import Simfile.Props.C02
 namespace Simfile.C16
-open Simfile Simfile.O Simfile.V Simfile.Cv
+open Simfile Simfile.O Simfile.V Simfile.Cv Simfile.CT Simfile.S
 
 /-! ### 17. nothing is invalid for SSC -/
 
@@ -157,5 +161,294 @@ example : convert ⟨false, [("BPMS".toList, some "0=120,4=-90".toList)], []⟩ 
     .error .notImplemented := by decide +kernel
 example : convert ⟨false, [("BPMS".toList, some "0=120".toList), ("FREEZES".toList, some "4=-1".toList)], []⟩
     true none none [] = .error .notImplemented := by decide +kernel
+
+/-! ### 20. the timing data of the result equals the source's
+
+`timingData sim chart` is `TimingData(simfile, chart)` read through the library's own accessor rules
+(`attrGet` with the alias rule, `useChart` = `timing_source`). The result is read as an SSC simfile, the source as an
+SM simfile. `CT.timingKeys = [BPMS, STOPS, DELAYS, WARPS, OFFSET]`.
+
+A key the source LACKS is read from the template in the result, so the statement needs the template to be "neutral"
+for such keys (`CT.Neutral`): the blank SSC simfile is neutral for STOPS, DELAYS, WARPS, OFFSET ("" / "0.000000")
+but not for BPMS ("0.000=60.000") — see `timing_needs_bpms`. -/
+
+/-- general form: for each of the five keys the source has the key or the start object's value under it reads like
+a missing property (for STOPS: and the source has no FREEZES alias) -/
+theorem timing_equal_simfile_of_neutral (sm out : AnySimfile) (st : Option AnySimfile)
+    (ct : Option (Dict × Option (List Str))) (beh : List (Nat × Nat)) (hwf : Dict.WF sm.props)
+    (hn : Neutral (startOf true st).props sm.props)
+    (h : convert ⟨false, sm.props, sm.charts⟩ true st ct beh = .ok out) :
+    timingData ⟨.sscSimfile, out.props⟩ none = timingData ⟨.smSimfile, sm.props⟩ none := by
+  rw [result _ out st ct beh h, timingData_none, timingData_none]
+  exact congrArg Except.ok (tdOf_setAll _ _ hwf hn)
+
+/-- a source that has all five timing keys (in particular STOPS, so the FREEZES alias is not in play), any
+templates: BPMS, STOPS, DELAYS, WARPS, OFFSET read from the result are those read from the source -/
+theorem timing_equal_simfile (sm out : AnySimfile) (st : Option AnySimfile)
+    (ct : Option (Dict × Option (List Str))) (beh : List (Nat × Nat)) (hwf : Dict.WF sm.props)
+    (hkeys : ∀ k ∈ timingKeys, k ∈ Dict.keys sm.props)
+    (h : convert ⟨false, sm.props, sm.charts⟩ true st ct beh = .ok out) :
+    timingData ⟨.sscSimfile, out.props⟩ none = timingData ⟨.smSimfile, sm.props⟩ none :=
+  timing_equal_simfile_of_neutral sm out st ct beh hwf (Neutral.of_all_keys _ _ hkeys) h
+
+/-- the default call (the start object is the generated blank SSC simfile: no template, or one without items):
+it suffices that the source has BPMS, and STOPS unless it has no FREEZES either -/
+theorem timing_equal_simfile_blank (sm out : AnySimfile) (st : Option AnySimfile)
+    (ct : Option (Dict × Option (List Str))) (beh : List (Nat × Nat)) (hwf : Dict.WF sm.props)
+    (hst : (startOf true st).props = T.blankSSCSimfile)
+    (hbpms : kBPMS ∈ Dict.keys sm.props)
+    (hstops : kSTOPS ∈ Dict.keys sm.props ∨ kFREEZES ∉ Dict.keys sm.props)
+    (h : convert ⟨false, sm.props, sm.charts⟩ true st ct beh = .ok out) :
+    timingData ⟨.sscSimfile, out.props⟩ none = timingData ⟨.smSimfile, sm.props⟩ none := by
+  apply timing_equal_simfile_of_neutral sm out st ct beh hwf _ h
+  rw [hst]
+  obtain ⟨h1, h2, h3, h4⟩ := blank_neutral
+  exact ⟨Or.inl hbpms, hstops.elim Or.inl (fun hf => Or.inr ⟨hf, h1⟩), Or.inr h2, Or.inr h3, Or.inr h4⟩
+
+theorem startOf_none_props : (startOf true none).props = T.blankSSCSimfile := rfl
+
+/-- FINDING (why "the source has STOPS" alone is not enough): a source WITHOUT a BPMS key converted with the blank
+template reads BPMS "0.000=60.000" from the template, while the source itself reads no BPM at all -/
+theorem timing_needs_bpms :
+    (convert ⟨false, [("STOPS".toList, some [])], []⟩ true none none []).map
+        (fun out => (timingData ⟨.sscSimfile, out.props⟩ none).map (·.bpms)) =
+      .ok (.ok (some [⟨0, "60.000".toList⟩])) ∧
+    (timingData ⟨.smSimfile, [("STOPS".toList, some [])]⟩ none).map (·.bpms) = .ok (some []) := by
+  decide +kernel
+
+/-- the known FREEZES-only case: the stops of the source are read from FREEZES, those of the result from the
+template's STOPS -/
+example : (convert ⟨false, [("BPMS".toList, some "0=120".toList), ("FREEZES".toList, some "1=2".toList)], []⟩
+      true none none []).map (fun out => (timingData ⟨.sscSimfile, out.props⟩ none).map (·.stops)) =
+      .ok (.ok (some [])) ∧
+    (timingData ⟨.smSimfile, [("BPMS".toList, some "0=120".toList), ("FREEZES".toList, some "1=2".toList)]⟩
+      none).map (·.stops) = .ok (some [⟨1, "2".toList⟩]) := by decide +kernel
+
+/-! ### 21. no converted chart becomes the timing source -/
+
+/-- the generated blank SSC chart has no non-empty value under any of the eleven chart timing keys -/
+theorem blank_chart_no_timing : NoChartTiming T.blankSSCChart := by decide +kernel
+
+theorem chartStartOf_none : (chartStartOf true none).1 = T.blankSSCChart := rfl
+
+/-- the six SM chart fields are none of the eleven chart timing keys -/
+theorem sm_fields_no_timing : ∀ key ∈ T.chartTimingProperties, key ∉ T.smChartProperties :=
+  smChartProperties_disjoint
+
+/-- Every converted chart `c'` (the charts of `out` after the template's own): if neither the chart template nor the
+source chart has a non-empty value under one of the eleven chart timing keys, then `c'` has none, `timing_source`
+answers "the simfile" (or fails with the version error), and whenever the version check succeeds the timing data
+computed for (`out`, `c'`) is that of the source simfile. -/
+theorem timing_equal_chart (sm out : AnySimfile) (st : Option AnySimfile)
+    (ct : Option (Dict × Option (List Str))) (beh : List (Nat × Nat)) (hwf : Dict.WF sm.props)
+    (hn : Neutral (startOf true st).props sm.props)
+    (h : convert ⟨false, sm.props, sm.charts⟩ true st ct beh = .ok out)
+    (htmpl : NoChartTiming (chartStartOf true ct).1)
+    (hsrc : ∀ c ∈ sm.charts, ∀ kv ∈ c.1, kv.1 ∈ T.chartTimingProperties → truthy kv.2 = false) :
+    ∀ c' ∈ out.charts.drop (startOf true st).charts.length,
+      NoChartTiming c'.1 ∧
+      useChart ⟨.sscSimfile, out.props⟩ (some ⟨.sscChart, c'.1⟩) =
+        (versionOK (versionString ⟨.sscSimfile, out.props⟩)).map (fun _ => false) ∧
+      ∀ b, versionOK (versionString ⟨.sscSimfile, out.props⟩) = .ok b →
+        useChart ⟨.sscSimfile, out.props⟩ (some ⟨.sscChart, c'.1⟩) = .ok false ∧
+        timingData ⟨.sscSimfile, out.props⟩ (some ⟨.sscChart, c'.1⟩) = timingData ⟨.smSimfile, sm.props⟩ none := by
+  intro c' hc'
+  have hch := (charts_kept _ out st ct beh h).1
+  rw [hch, List.drop_left] at hc'
+  obtain ⟨c, hc, rfl⟩ := List.mem_map.mp hc'
+  have hno : NoChartTiming (setAll (chartStartOf true ct).1 c.1) :=
+    noChartTiming_setAll _ _ htmpl (hsrc c hc)
+  have hu := useChart_of_noChartTiming ⟨.sscSimfile, out.props⟩ rfl _ hno
+  refine ⟨hno, hu, ?_⟩
+  intro b hb
+  have hu' : useChart ⟨.sscSimfile, out.props⟩ (some ⟨.sscChart, setAll (chartStartOf true ct).1 c.1⟩) =
+      .ok false := by rw [hu, hb]; rfl
+  exact ⟨hu', by rw [timingData_of_not_chart _ _ hu',
+    timing_equal_simfile_of_neutral sm out st ct beh hwf hn h]⟩
+
+/-- SM charts only hold the six fields: a source chart whose keys are among `T.smChartProperties` has no chart
+timing value -/
+theorem sm_chart_no_timing (c : Dict) (hk : ∀ k ∈ Dict.keys c, k ∈ T.smChartProperties) :
+    ∀ kv ∈ c, kv.1 ∈ T.chartTimingProperties → truthy kv.2 = false := by
+  intro kv hkv ht
+  exact absurd (hk kv.1 (List.mem_map.mpr ⟨kv, hkv, rfl⟩)) (sm_fields_no_timing kv.1 ht)
+
+/-- with the blank simfile template the version of the result is the blank "0.83" unless the source brings its own
+VERSION, and it passes the split-timing test -/
+theorem version_ok_blank (sm out : AnySimfile) (st : Option AnySimfile)
+    (ct : Option (Dict × Option (List Str))) (beh : List (Nat × Nat))
+    (hst : (startOf true st).props = T.blankSSCSimfile) (hv : kVERSION ∉ Dict.keys sm.props)
+    (h : convert ⟨false, sm.props, sm.charts⟩ true st ct beh = .ok out) :
+    versionOK (versionString ⟨.sscSimfile, out.props⟩) = .ok true := by
+  rw [result _ out st ct beh h]
+  simp only [hst]
+  rw [versionString_congr _ T.blankSSCSimfile (get?_setAll_of_not_key _ _ _ hv)]
+  exact blank_version_ok
+
+/-- the default call `sm_to_ssc(sm)`: blank templates, an SM source with distinct keys that has BPMS (and STOPS, or no
+FREEZES) and no VERSION, charts holding only the six SM fields. For EVERY chart `c'` of the result, the timing data of
+(`out`, `c'`) is the timing data of the source simfile. -/
+theorem timing_equal_chart_default (sm out : AnySimfile) (beh : List (Nat × Nat)) (hwf : Dict.WF sm.props)
+    (hbpms : kBPMS ∈ Dict.keys sm.props)
+    (hstops : kSTOPS ∈ Dict.keys sm.props ∨ kFREEZES ∉ Dict.keys sm.props)
+    (hv : kVERSION ∉ Dict.keys sm.props)
+    (hfields : ∀ c ∈ sm.charts, ∀ k ∈ Dict.keys c.1, k ∈ T.smChartProperties)
+    (h : convert ⟨false, sm.props, sm.charts⟩ true none none beh = .ok out) :
+    ∀ c' ∈ out.charts,
+      useChart ⟨.sscSimfile, out.props⟩ (some ⟨.sscChart, c'.1⟩) = .ok false ∧
+      timingData ⟨.sscSimfile, out.props⟩ (some ⟨.sscChart, c'.1⟩) = timingData ⟨.smSimfile, sm.props⟩ none := by
+  intro c' hc'
+  obtain ⟨h1, h2, h3, h4⟩ := blank_neutral
+  have hn : Neutral (startOf true none).props sm.props :=
+    ⟨Or.inl hbpms, hstops.elim Or.inl (fun hf => Or.inr ⟨hf, h1⟩), Or.inr h2, Or.inr h3, Or.inr h4⟩
+  have := timing_equal_chart sm out none none beh hwf hn h blank_chart_no_timing
+    (fun c hc => sm_chart_no_timing c.1 (hfields c hc)) c' (by simpa [startOf, blankSimfile] using hc')
+  exact this.2.2 true (version_ok_blank sm out none none beh rfl hv h)
+
+/-! ### 22. the note data of every converted chart is the source chart's -/
+
+/-- the i-th converted chart (after the template's own charts) holds the i-th source chart's NOTES value: so
+decoding the notes of the result gives the notes of the source -/
+theorem notes_equal (sm out : AnySimfile) (st : Option AnySimfile)
+    (ct : Option (Dict × Option (List Str))) (beh : List (Nat × Nat))
+    (h : convert ⟨false, sm.props, sm.charts⟩ true st ct beh = .ok out) :
+    ∀ (i : Nat) (c c' : Dict × Option (List Str)), sm.charts[i]? = some c →
+      out.charts[(startOf true st).charts.length + i]? = some c' →
+      Dict.WF c.1 → kNOTES ∈ Dict.keys c.1 → c'.1.get? kNOTES = c.1.get? kNOTES := by
+  intro i c c' hc hc' hwf hk
+  rw [(charts_kept _ out st ct beh h).1] at hc'
+  simp only [List.getElem?_append_right (Nat.le_add_right _ _), Nat.add_sub_cancel_left, List.getElem?_map,
+    hc, Option.map_some, Option.some.injEq] at hc'
+  subst hc'
+  exact get?_setAll_of_key_WF _ _ _ hwf hk
+
+/-- and there are exactly as many converted charts as source charts -/
+theorem notes_equal_count (sm out : AnySimfile) (st : Option AnySimfile)
+    (ct : Option (Dict × Option (List Str))) (beh : List (Nat × Nat))
+    (h : convert ⟨false, sm.props, sm.charts⟩ true st ct beh = .ok out) :
+    (out.charts.drop (startOf true st).charts.length).length = sm.charts.length := by
+  rw [(charts_kept _ out st ct beh h).1, List.drop_left, List.length_map]
+
+/-! ### 23. the result is in the SSC serializer's domain: saving and reloading it gives it back -/
+
+/-- `CT.asSSC out` is the result as an SSC simfile object. If it lies in `C02.DomSSC` and every chart ends with its
+note data, then serialize → parse gives exactly the result back. -/
+theorem reloads_equal (out : AnySimfile) (hd : C02.DomSSC (asSSC out))
+    (hl : ∀ ch ∈ (asSSC out).charts, ch.props.getLast?.map (·.1) = some (notesKey ch)) :
+    (serSSC (asSSC out)).map (fun is => loadSSC (paramsOf is)) = .ok (asSSC out) :=
+  C02.roundtrip_eq _ hd hl
+
+/-- one converted chart built from the blank SSC chart and a source chart that holds only SM fields, with a NOTES
+value that is not `None`: it keeps the blank chart's key order (NOTES last) and is in the chart domain -/
+theorem chart_in_dom_blank (c : Dict) (hk : ∀ k ∈ Dict.keys c, k ∈ T.smChartProperties)
+    (hnotes : ∀ kv ∈ c, kv.1 = kNOTES → kv.2 ≠ none) :
+    C02.DomSSCChart ⟨setAll T.blankSSCChart c⟩ ∧
+    (setAll T.blankSSCChart c).getLast?.map (·.1) = some (notesKey ⟨setAll T.blankSSCChart c⟩) := by
+  obtain ⟨bwf, bkeys, bsub, blast, n0, hn0⟩ := blankChart_keys
+  have hkeys : Dict.keys (setAll T.blankSSCChart c) = Dict.keys T.blankSSCChart :=
+    keys_setAll_of_subset _ _ (fun k hk' => bsub k (hk k hk'))
+  have hN : kNOTES ∈ Dict.keys (setAll T.blankSSCChart c) := by
+    rw [hkeys]; exact bsub kNOTES (by decide)
+  have hnk : notesKey ⟨setAll T.blankSSCChart c⟩ = kNOTES := by
+    unfold notesKey
+    simp only [(contains_iff _ _).mpr hN]
+    rfl
+  refine ⟨⟨WF_setAll _ _ bwf, fun k hk' => (bkeys k (hkeys ▸ hk')).1, fun k hk' => (bkeys k (hkeys ▸ hk')).2, ?_⟩, ?_⟩
+  · rw [hnk]
+    cases hg : (setAll T.blankSSCChart c).get? kNOTES with
+    | none => exact absurd hN ((get?_eq_none_iff _ _).mp hg)
+    | some v =>
+      rcases get?_setAll_origin _ _ _ _ hg with h | h
+      · cases v with
+        | none => exact absurd rfl (hnotes _ h rfl)
+        | some n => exact ⟨n, rfl⟩
+      · rw [hn0] at h; cases h; exact ⟨n0, rfl⟩
+  · rw [hnk, ← List.getLast?_map]
+    show (Dict.keys (setAll T.blankSSCChart c)).getLast? = _
+    rw [hkeys, blast]
+
+/-- the result of the default call as an SSC simfile object, in closed form -/
+theorem asSSC_result_blank (sm out : AnySimfile) (beh : List (Nat × Nat))
+    (h : convert ⟨false, sm.props, sm.charts⟩ true none none beh = .ok out) :
+    asSSC out = ⟨setAll T.blankSSCSimfile sm.props, sm.charts.map fun c => ⟨setAll T.blankSSCChart c.1⟩⟩ := by
+  rw [result _ out none none beh h]
+  simp [asSSC, startOf, blankSimfile, chartStartOf, blankChart]
+
+/-- the default call `sm_to_ssc(sm)` on a source with upper-case keys other than NOTEDATA whose charts hold only the
+six SM fields with a NOTES value: the result is in `C02.DomSSC` and every chart ends with its note data (both follow
+from table facts about the generated blank SSC objects) -/
+theorem result_in_dom_blank (sm out : AnySimfile) (beh : List (Nat × Nat))
+    (hup : ∀ k ∈ Dict.keys sm.props, upper k = k ∧ k ≠ kNOTEDATA)
+    (hcharts : ∀ c ∈ sm.charts, (∀ k ∈ Dict.keys c.1, k ∈ T.smChartProperties) ∧
+      ∀ kv ∈ c.1, kv.1 = kNOTES → kv.2 ≠ none)
+    (h : convert ⟨false, sm.props, sm.charts⟩ true none none beh = .ok out) :
+    C02.DomSSC (asSSC out) ∧
+    ∀ ch ∈ (asSSC out).charts, ch.props.getLast?.map (·.1) = some (notesKey ch) := by
+  rw [asSSC_result_blank sm out beh h]
+  refine ⟨⟨WF_setAll _ _ blankSim_keys.1, ?_, ?_, ?_⟩, ?_⟩
+  · intro k hk
+    rcases mem_keys_setAll _ _ k hk with h' | h'
+    · exact (blankSim_keys.2 k h').1
+    · exact (hup k h').1
+  · intro k hk
+    rcases mem_keys_setAll _ _ k hk with h' | h'
+    · exact (blankSim_keys.2 k h').2
+    · exact (hup k h').2
+  · intro ch hc
+    obtain ⟨c, hc', rfl⟩ := List.mem_map.mp hc
+    exact (chart_in_dom_blank c.1 (hcharts c hc').1 (hcharts c hc').2).1
+  · intro ch hc
+    obtain ⟨c, hc', rfl⟩ := List.mem_map.mp hc
+    exact (chart_in_dom_blank c.1 (hcharts c hc').1 (hcharts c hc').2).2
+
+/-- hence saving the converted simfile and loading it again gives the converted simfile, unchanged -/
+theorem reloads_equal_blank (sm out : AnySimfile) (beh : List (Nat × Nat))
+    (hup : ∀ k ∈ Dict.keys sm.props, upper k = k ∧ k ≠ kNOTEDATA)
+    (hcharts : ∀ c ∈ sm.charts, (∀ k ∈ Dict.keys c.1, k ∈ T.smChartProperties) ∧
+      ∀ kv ∈ c.1, kv.1 = kNOTES → kv.2 ≠ none)
+    (h : convert ⟨false, sm.props, sm.charts⟩ true none none beh = .ok out) :
+    (serSSC (asSSC out)).map (fun is => loadSSC (paramsOf is)) = .ok (asSSC out) :=
+  have hd := result_in_dom_blank sm out beh hup hcharts h
+  reloads_equal out hd.1 hd.2
+
+/-! ### non-vacuity of 20–23 -/
+
+/-- an SM source with all five timing keys, a title, and two charts (the blank one and one with other values) -/
+def exSM : AnySimfile :=
+  ⟨false,
+   [("TITLE".toList, some "x".toList), ("OFFSET".toList, some "-0.25".toList),
+    ("BPMS".toList, some "0=120,8=90.5".toList), ("STOPS".toList, some "4=0.5".toList),
+    ("DELAYS".toList, some []), ("WARPS".toList, none)],
+   [(T.blankSMChart, none),
+    ([("STEPSTYPE".toList, some "dance-double".toList), ("DESCRIPTION".toList, some "d".toList),
+      ("DIFFICULTY".toList, some "Hard".toList), ("METER".toList, some "9".toList),
+      ("RADARVALUES".toList, some "0,0".toList), ("NOTES".toList, some "00000000\n10000000".toList)], none)]⟩
+
+/-- the default-call source: BPMS and FREEZES-free, no STOPS, DELAYS, WARPS, OFFSET -/
+def exSMmin : AnySimfile :=
+  ⟨false, [("TITLE".toList, some "x".toList), ("BPMS".toList, some "0=150".toList)], exSM.charts⟩
+
+example : Dict.WF exSM.props ∧ (∀ k ∈ timingKeys, k ∈ Dict.keys exSM.props) := by decide +kernel
+example : (convert ⟨false, exSM.props, exSM.charts⟩ true none none []).toOption.isSome = true := by decide +kernel
+example : (timingData ⟨.smSimfile, exSM.props⟩ none).map (fun t => (t.bpms, t.stops)) =
+    .ok (some [⟨0, "120".toList⟩, ⟨8, "90.5".toList⟩], some [⟨4, "0.5".toList⟩]) := by decide +kernel
+example : (timingData ⟨.smSimfile, exSM.props⟩ none).map (fun t => (t.delays, t.warps, t.offset)) =
+    .ok (some [], some [], some (-1/4)) := by decide +kernel
+example (out : AnySimfile) (h : convert ⟨false, exSM.props, exSM.charts⟩ true none none [] = .ok out) :
+    timingData ⟨.sscSimfile, out.props⟩ none = timingData ⟨.smSimfile, exSM.props⟩ none :=
+  timing_equal_simfile exSM out none none [] (by decide +kernel) (by decide +kernel) h
+example : Dict.WF exSMmin.props ∧ kBPMS ∈ Dict.keys exSMmin.props ∧ kFREEZES ∉ Dict.keys exSMmin.props ∧
+    kVERSION ∉ Dict.keys exSMmin.props ∧
+    (∀ c ∈ exSMmin.charts, ∀ k ∈ Dict.keys c.1, k ∈ T.smChartProperties) := by decide +kernel
+example : (convert ⟨false, exSMmin.props, exSMmin.charts⟩ true none none []).toOption.isSome = true := by
+  decide +kernel
+example : (∀ k ∈ Dict.keys exSMmin.props, upper k = k ∧ k ≠ kNOTEDATA) ∧
+    ∀ c ∈ exSMmin.charts, (∀ k ∈ Dict.keys c.1, k ∈ T.smChartProperties) ∧
+      ∀ kv ∈ c.1, kv.1 = kNOTES → kv.2 ≠ none := by decide +kernel
+example : ∀ c ∈ exSM.charts, Dict.WF c.1 ∧ kNOTES ∈ Dict.keys c.1 := by decide +kernel
+/-- a chart template WITH a chart timing value is not covered by `timing_equal_chart`, and indeed becomes the source -/
+example : ¬ NoChartTiming [("BPMS".toList, some "0=1".toList)] := by decide +kernel
+example : useChart ⟨.sscSimfile, T.blankSSCSimfile⟩ (some ⟨.sscChart, [("BPMS".toList, some "0=1".toList)]⟩) =
+    .ok true := by decide +kernel
 
 end Simfile.C16
